@@ -398,6 +398,10 @@ class Repo:
                         and isinstance(n.targets[0], ast.Name) and id(n.value) not in seen_node:
                     seen_node.add(id(n.value))
                     out.append((mod, n.targets[0].id, n.value))
+                elif isinstance(n, ast.AnnAssign) and isinstance(n.value, ast.Dict) \
+                        and isinstance(n.target, ast.Name) and id(n.value) not in seen_node:
+                    seen_node.add(id(n.value))            # `table: Dict[str, float] = {...}`
+                    out.append((mod, n.target.id, n.value))
             for n in ast.walk(f):
                 if isinstance(n, (ast.Name, ast.Attribute)) and isinstance(getattr(n, 'ctx', None), ast.Load):
                     r = self.resolve_expr(mod, n)
